@@ -46,6 +46,15 @@ def inst_recv_set(cx, iid):
         inst.site(lu, None, "loss_increase_update halves: %s" % halv)
         if len(halv) != 1 or not re.fullmatch(r"div\(.*\.value,2\)", halv[0]):
             inst.violation(lu.path, "halving", "loss_increase_update does not halve the entries of X_recv_set (%s)" % halv)
+        # the "infinity" seed of X_recv_set is set once, on the first frame sent (RFC 5348 4.2), never again
+        nf = R.body("SendRateComp::notify_frame_sent")
+        ri = call_sites(nf, "RecvRateSet::reset_initial")
+        for l_, lab_ in ri:
+            inst.site(nf, l_, "reset_initial in notify_frame_sent")
+        cx.guard(inst, nf, ri, [[r"is\(arg1\.mode,AwaitSend\)"]], construct="X_recv_set re-seeded", why="re-seeding X_recv_set with infinity after the first frame removes the receive-rate limit: the next no-feedback expiry raises the rate", checked_before=True)
+        for ob in R.all_bodies():
+            if ob.path != nf.path and "send_rate::" in ob.path and call_sites(ob, "RecvRateSet::reset_initial"):
+                inst.violation(ob.path, "reset_initial", "X_recv_set is re-seeded with infinity outside notify_frame_sent")
         sn = R.body("SendRateComp::new")
         for loc, s_ in sn.assigns():
             rv = s_["rv"]
@@ -194,6 +203,14 @@ def run(cx):
             inst.violation(hf.path, "equation phase", "expected one equation-phase rate write and a store of X_Bps before it (anchor): %d / %d" % (len(eq_rate), len(tcp_w)))
         else:
             cx.preceded_by(inst, hf, [(eq_rate[0], "send_rate = max(min(X_Bps, limit), s/64)")], [l for l, _ in tcp_w], "rate set from a stale X_Bps", "send_rate_tcp = eval_tcp_throughput(R, p)")
+        # entering the equation phase sets the rate from the target for the reported loss: the mode switch is preceded
+        # by a rate write, and every re-evaluation of X_Bps is followed by one
+        rate_ws = [l for l, n, ps in hf.field_writes(r"arg1\.send_rate") if n["k"] == "assign" and "Ord::min(arg1.send_rate" not in show(hf.rvalue_expr(n["rv"])) and "Ord::min(arg1.max_send_rate" not in show(hf.rvalue_expr(n["rv"]))]
+        sw = [(l, "mode = ThroughputEqn") for l, n, ps in hf.field_writes(r"arg1\.mode") if n["k"] == "assign" and "ThroughputEqn" in show(hf.rvalue_expr(n["rv"]))]
+        cx.preceded_by(inst, hf, sw, rate_ws, "equation phase entered without setting the rate", "send_rate = max(min(X_target, limit), s/64)")
+        cx.followed_by(inst, hf, [(l, "X_Bps re-evaluated") for l, _ in tcp_w], rate_ws, "X_Bps re-evaluated but the rate is left as it was", "send_rate = max(min(X_Bps, limit), s/64)")
+        if not sw:
+            inst.violation(hf.path, "equation phase", "handle_feedback never enters the throughput-equation phase (anchor)")
         ur = R.body("SendRateComp::update_rtt")
         for fld, want in (("rtt_s", r"Some\{var\d+\}"), ("rtt_ms", r"Some\{send_rate::s_to_ms\(var\d+\)\}")):
             ws = [(l, show(ur.rvalue_expr(n["rv"]))) for l, n, ps in ur.field_writes(r"arg1\." + fld) if n["k"] == "assign"]
@@ -236,6 +253,8 @@ def run(cx):
             cx.followed_by(inst, b, [(Loc(0, -1), "entry of " + fn.split("::")[-1])], [l for l, _ in ws], "no-feedback timer not re-armed", "nofeedback_exp_ms = Some(now + RTO)")
 
     inst_recv_set(cx, "C14.h")
+    from props.shared import loss_rate_shape
+    loss_rate_shape(cx, "C14.i")
     from props.C13 import ceiling_clamp
     ceiling_clamp(cx, "C14.d")
     from props.shared import ack_processing_presence
